@@ -9,7 +9,7 @@ LEVEL = 'exploration'
 RULE = ('each generated program (operation sequence x device configuration x environment choice list) is executed once through AdbDevice and once through AdbDeviceAsync against twin device '
         'models, the async run replaying exactly the choice list of the sync run; families: (a) all operation sequences of length <=2 over the 8-operation alphabet x chunkings x maxdata with <=1 '
         'read-fragment deviation, (b) every handshake decision sequence (0..3 keys, callbacks), (c) failing transfers (FAIL at every point / position, invalid records), (d) a fault of 3 kinds at '
-        'every transport-call index of a six-operation session, (e) stalls at every awaited packet, (f) availability sequences of length <=3 incl. empty paths, (g) push sources x callbacks, (i) the device closing a stream instead of sending the next WRTE, '
+        'every transport-call index of a six-operation session, (e) stalls at every awaited packet, (f) availability sequences of length <=3 incl. empty paths, (g) push sources x callbacks, (i) the device closing a stream instead of sending the next WRTE, (j) legacy CLSE packets with zeroed ids, (k) device replies overtaking the OKAY of the request, '
         '(h) short writes; oracle: host packet logs byte-equal, results equal, exception types equal, `available` equal after each step, same device-side files, same number and kind of '
         'choice points (a choice list valid for one twin must be valid for the other); non-trivial = program has at least one operation; distinct = distinct (family, program, choice list)')
 ASSUMPTIONS = ['adbsim device model and in-memory twin transports that differ only in being awaited', 'exception messages are not compared, only types']
@@ -164,6 +164,23 @@ def programs(tier):
                           'steps': [('connect', dict(kw)), ('shell', 'c', dict(kw, decode=False)), ('stat', '/f', dict(kw)), ('list', '/d', dict(kw)), ('pull', '/f', 'bytesio', dict(kw)),
                                     ('streaming_shell', 'c', dict(kw, decode=False))]})
     fam['early-close'] = (progs, {})
+    # (j) legacy devices: CLSE with zeroed ids; (k) the device's reply overtaking its OKAY
+    progs = []
+    for z in ('a0', 'a1', 'both'):
+        for clse in ('after-ack', 'eager'):
+            for chk in ('one', 'two'):
+                cfg = scen.ops_cfg(chk, 4096, clse)
+                cfg['zero_clse'] = z
+                kw = {'transport_timeout_s': 0.05, 'read_timeout_s': 0.2}
+                progs.append({'cfg': cfg, 'eps': 0.001, 'steps': [('connect', dict(kw)), ('shell', 'c', dict(kw, decode=False)), ('root', dict(kw)), ('streaming_shell', 'c', dict(kw, decode=False)),
+                                                                    ('exec_out', 'c', dict(kw, decode=False))]})
+    fam['zero-id-close'] = (progs, {})
+    progs = []
+    for chk in ('one', 'two', 'bytes'):
+        cfg = scen.ops_cfg(chk, 4096)
+        cfg['okay_order'] = 'choice'
+        progs.append({'cfg': cfg, 'steps': [con] + [scen.op_tuple(o, 5000) for o in ('stat', 'list', 'pull', 'push')]})
+    fam['reply-before-okay'] = (progs, {'okay-order': 2})
     # (h) short writes
     progs = [{'cfg': scen.ops_cfg('two', 4096), 'wcap': True, 'steps': [con, scen.op_tuple('shell'), scen.op_tuple('push', 5000), scen.op_tuple('stat')]}]
     fam['short-writes'] = (progs, {'wcap': 1 if tier == 'quick' else 2})
